@@ -434,6 +434,70 @@ def _no_unwind(env, b, bb, T, trail=()):
     return False
 
 
+def _guard_locals(b, guards):
+    return [i for i, l in enumerate(b.locals) if (l["ty"].get("adt") or "") in guards or
+            any(g.split("::")[-1] in l["ty"]["s"] and g in l["ty"]["s"] for g in guards)]
+
+
+def _unwind_guarded(b, bb, glocals):
+    """(a guard is dropped on the unwind path of the terminator of bb, a guard is alive at bb)"""
+    u = b.term(bb).get("unwind")
+    if u in ("continue", None, "unreachable", "terminate"):
+        return False, False
+    # follow the cleanup chain: is a guard dropped on it?
+    seen = set()
+    st = [u]
+    drops_guard = False
+    while st:
+        x = st.pop()
+        if x in seen:
+            continue
+        seen.add(x)
+        tx = b.term(x)
+        if tx["k"] == "drop" and not tx["place"]["p"] and tx["place"]["l"] in glocals:
+            drops_guard = True
+        st.extend(b.succ(x, unwind=True))
+    # is the guard alive at bb?  (created on a block dominating bb, not yet moved away)
+    alive = False
+    for g in glocals:
+        for (db, si, kd, pl) in b.defs().get(g, []):
+            if kd == "call" and b.dominates(db, bb) and db != bb:
+                # moved-away blocks: blocks using `move _g` as an operand
+                moved = set()
+                for bi2, blk2 in enumerate(b.blocks):
+                    if blk2["cleanup"]:
+                        continue
+                    ops = []
+                    for s2 in blk2["stmts"]:
+                        if s2["k"] == "assign" and s2["rv"]["k"] == "use":
+                            ops.append(s2["rv"]["op"])
+                    if blk2["term"]["k"] == "call":
+                        ops.extend(blk2["term"]["args"])
+                    for o in ops:
+                        if o["k"] == "move" and not o["place"]["p"] and o["place"]["l"] == g:
+                            moved.add(bi2)
+                after_move = any(mv != bb and bb in b.reachable(mv) and mv in b.reachable(db) for mv in moved)
+                if not after_move:
+                    alive = True
+    return drops_guard, alive
+
+
+def _callers_guard(env, T, cb, guards, depth=0):
+    """every call of the helper cb (a function that runs inside its callers' held regions) is made with a panic guard of
+    the caller alive, whose drop lies on the unwind path of the call: whatever unwinds out of the helper sets the end flag"""
+    callers = [(pb, pbb) for (pb, pbb) in all_callers(env, cb.def_) if pb.def_ != cb.def_]
+    if not callers or depth > 3:
+        return False
+    for (pb, pbb) in callers:
+        dg, al = _unwind_guarded(pb, pbb, _guard_locals(pb, guards))
+        if dg and al:
+            continue
+        if not pb.is_closure and _callers_guard(env, T, pb, guards, depth + 1):
+            continue
+        return False
+    return True
+
+
 def rule_unw(env, shared):
     """UNW: every terminator that can unwind while the ticket is held has a cleanup path that releases the hand-off
     (drops a guard whose Drop sets the end flag) before resuming."""
@@ -511,46 +575,17 @@ def rule_unw(env, shared):
             loc = b.file_line(t["loc"])
             if any(o.key == k for o in out):
                 continue
+            if h[1].startswith("all ") and not b.is_closure and not any(_unwind_guarded(b, bb, glocals)) \
+                    and _callers_guard(env, T, b, guards):
+                out.append(Ob("UNW", k, "ok", loc, "unwinding leaves this helper into a caller whose panic guard is alive at the "
+                              "call and dropped on its unwind path (every caller)", True))
+                continue
             if u == "continue" or u is None:
                 out.append(Ob("UNW", k, "viol", loc,
                               "`%s` can unwind while the ticket is held and nothing runs on the unwind path: the now-serving "
                               "counter is never advanced and the end flag never set — every other puller spins forever" % what))
                 continue
-            # follow the cleanup chain: is a guard dropped on it?
-            seen = set()
-            st = [u]
-            drops_guard = False
-            while st:
-                x = st.pop()
-                if x in seen:
-                    continue
-                seen.add(x)
-                tx = b.term(x)
-                if tx["k"] == "drop" and not tx["place"]["p"] and tx["place"]["l"] in glocals:
-                    drops_guard = True
-                st.extend(b.succ(x, unwind=True))
-            # is the guard alive at bb?  (created on a block dominating bb, not yet moved away)
-            alive = False
-            for g in glocals:
-                for (db, si, kd, pl) in b.defs().get(g, []):
-                    if kd == "call" and b.dominates(db, bb) and db != bb:
-                        # moved-away blocks: blocks using `move _g` as an operand
-                        moved = set()
-                        for bi2, blk2 in enumerate(b.blocks):
-                            if blk2["cleanup"]:
-                                continue
-                            ops = []
-                            for s2 in blk2["stmts"]:
-                                if s2["k"] == "assign" and s2["rv"]["k"] == "use":
-                                    ops.append(s2["rv"]["op"])
-                            if blk2["term"]["k"] == "call":
-                                ops.extend(blk2["term"]["args"])
-                            for o in ops:
-                                if o["k"] == "move" and not o["place"]["p"] and o["place"]["l"] == g:
-                                    moved.add(bi2)
-                        after_move = any(mv != bb and bb in b.reachable(mv) and mv in b.reachable(db) for mv in moved)
-                        if not after_move:
-                            alive = True
+            drops_guard, alive = _unwind_guarded(b, bb, glocals)
             if drops_guard and alive:
                 out.append(Ob("UNW", k, "ok", loc, "unwinding drops the panic guard, which sets the end flag", True))
             else:
